@@ -3,6 +3,7 @@ mod rawdb_engine;
 mod vec_engine;
 mod compute_engine;
 mod codec_engine;
+mod import_engine;
 
 fn main() {
     let args = common::Args(std::env::args().skip(1).collect());
@@ -11,6 +12,7 @@ fn main() {
         Some("vec") => vec_engine::main(&args),
         Some("compute") => compute_engine::main(&args),
         Some("codec") => codec_engine::main(&args),
+        Some("import") => import_engine::main(&args),
         _ => {
             eprintln!("usage: harness <engine> …");
             2
